@@ -377,6 +377,9 @@ func (c *Ctx) sortOf(t types.Type) string {
 	if _, ok := t.(*types.TypeParam); ok {
 		return "Int"
 	}
+	if nt, ok := t.(*types.Named); ok && nt.Obj().Pkg() != nil && (nt.Obj().Pkg().Path() == "sync" || nt.Obj().Pkg().Path() == "sync/atomic") {
+		return "Int" // synchronisation objects are opaque (their methods are no-ops in the sequential model)
+	}
 	switch u := t.Underlying().(type) {
 	case *types.Basic:
 		switch {
@@ -521,6 +524,9 @@ func (c *Ctx) heapName(elemSort string) string {
 // zero value term of a Go type
 func (c *Ctx) zero(t types.Type) string {
 	if _, ok := t.(*types.TypeParam); ok {
+		return "0"
+	}
+	if nt, ok := t.(*types.Named); ok && nt.Obj().Pkg() != nil && (nt.Obj().Pkg().Path() == "sync" || nt.Obj().Pkg().Path() == "sync/atomic") {
 		return "0"
 	}
 	switch u := t.Underlying().(type) {
